@@ -29,10 +29,14 @@ Idempotent == \A sh \in Shapes : IidsAfter(sh, 2) = IidsAfter(sh, 1)
 Init == accs = <<>> /\ idCount = 1 /\ word = <<>>
 Add(e, sh) ==
   /\ Len(word) < MaxAcc
-  /\ LET aid == IF e = 0 THEN idCount ELSE e
-         dup == \E k \in 1..Len(accs) : accs[k].aid = aid
+  /\ LET used == {accs[k].aid : k \in 1..Len(accs)}
+         \* an automatic id is the next one of the counter that no accessory of the container carries (guard
+         \* automatic_id_skips_taken): an accessory that leaves the numbering to the container is never refused
+         free == IF Guard("automatic_id_skips_taken") THEN CHOOSE n \in idCount..(idCount + Len(accs)) : n \notin used ELSE idCount
+         aid == IF e = 0 THEN free ELSE e
+         dup == aid \in used
          take == ~dup \/ ~Guard("duplicate_rejected") IN
-     /\ idCount' = IF e = 0 THEN idCount + 1 ELSE idCount
+     /\ idCount' = IF e = 0 THEN free + 1 ELSE idCount
      /\ accs' = IF take THEN Append(accs, [aid |-> aid, iids |-> IidsOf(sh)]) ELSE accs
      /\ word' = Append(word, [explicit |-> e, shape |-> sh, accepted |-> take])
 Next == \E e \in Explicit, sh \in Shapes : Add(e, sh)
@@ -41,5 +45,6 @@ Spec == Init /\ [][Next]_vars
 Range(s) == {s[i] : i \in 1..Len(s)}
 UniqueAids == \A i, j \in 1..Len(accs) : i # j => accs[i].aid # accs[j].aid
 NonZero == \A i \in 1..Len(accs) : accs[i].aid # 0 /\ 0 \notin Range(accs[i].iids)
+AutomaticAccepted == \A i \in 1..Len(word) : word[i].explicit = 0 => word[i].accepted
 UniqueIids == \A i \in 1..Len(accs) : Cardinality(Range(accs[i].iids)) = Len(accs[i].iids)
 =======================================================================
